@@ -212,6 +212,8 @@ fn hazards() -> Vec<(String, Vec<u8>)> {
         let two = dir(&[vec![0, 100], vec![0, 0], vec![good.len() as u64, 9], vec![1, (1u64 << 63) - 100]], 2);
         out.push(("arch:second leaf offset just above 2^63".into(), arch(&two, &good, &[1], &|_| {})));
     }
+    out.push(("arch:leaf window ending beyond 2^64".into(), arch(&ptr(m - 300, 1000), &[], &[1], &|h| h.leaf_off = 200)));
+    out.push(("arch:root window ending beyond 2^64".into(), arch(&ptr(0, 5), &[], &[1], &|h| { h.root_off = m - 50; h.root_len = 1000; })));
     out.push(("arch:leaf offset near 2^64".into(), arch(&ptr(m - 3, 9), &[], &[1], &|h| h.leaf_off = m - 1)));
     out.push(("arch:leaf_off + offset overflow".into(), arch(&ptr(m - 1, 9), &[], &[1], &|h| h.leaf_off = 200)));
     let one = dir(&[vec![0], vec![1], vec![3], vec![1]], 1);
@@ -416,6 +418,11 @@ pub fn gen(prop: &str, rng: &mut Rng, quick: bool, st: &mut Stats) -> Option<Vec
                 arch.push(write_plain(if k == 0 { "sync" } else { "async" }, &ops.join(";")).expect("write"));
                 st.bump("archives_with_tiles_over_64KiB");
             }
+            for (_, bytes, _, valid) in odd_archives(rng) {
+                if valid {
+                    arch.push(bytes);
+                }
+            }
             for (k, b) in arch.iter().enumerate() {
                 let v = match spec::parse(b, false) {
                     Ok(v) => v,
@@ -445,6 +452,9 @@ pub fn gen(prop: &str, rng: &mut Rng, quick: bool, st: &mut Stats) -> Option<Vec
                 archives.insert(1, write_plain("sync", &ops.join(";")).expect("write"));
                 st.bump("archives_with_tiles_over_64k");
             }
+            for (_, bytes, _, _) in odd_archives(rng) {
+                archives.push(bytes);
+            }
             // archives of another writer whose metadata section carries padding behind the compressed stream: whatever the
             // reader makes of it, it must make the same of it under every fragmentation
             for (k, comp) in [2u8, 3, 4, 1].iter().enumerate() {
@@ -461,6 +471,22 @@ pub fn gen(prop: &str, rng: &mut Rng, quick: bool, st: &mut Stats) -> Option<Vec
                 b[0..127].copy_from_slice(&spec::encode_header(&h2));
                 archives.insert(2, b);
                 st.bump("archives_with_padded_metadata");
+            }
+            // ... and whose metadata text starts with a byte order mark
+            for (k, comp) in [1u8, 2, 4].iter().enumerate() {
+                let mut s2 = Stats::default();
+                let f = gen_foreign(rng, &ForeignOpts { n: 4, depth: 0, icomp: *comp, permute: false, unordered: false, empty_meta: false, merge_runs: true, unknown_counts: false, multi_frame: false }, &mut s2);
+                let mut text = vec![0xEFu8, 0xBB, 0xBF];
+                text.extend_from_slice(&f.meta);
+                let meta = spec::codec_compress(*comp, &text);
+                let mut h2 = f.header.clone();
+                let mut b = f.bytes.clone();
+                h2.meta_off = b.len() as u64;
+                h2.meta_len = meta.len() as u64;
+                b.extend_from_slice(&meta);
+                b[0..127].copy_from_slice(&spec::encode_header(&h2));
+                archives.insert(2 + k, b);
+                st.bump("archives_with_bom_metadata");
             }
             for (k, b) in archives.iter().enumerate() {
                 for mode in ["sync", "async"] {
@@ -547,6 +573,15 @@ pub fn gen(prop: &str, rng: &mut Rng, quick: bool, st: &mut Stats) -> Option<Vec
                     c.push(format!("chk_fault hdr_r {mode} {}", hex_bytes(&b[..127.min(b.len())])));
                 }
             }
+            // hostile archives (whose fault-free open is an error): a fault at any operation must still not panic
+            for (name, b) in hazards() {
+                if name.starts_with("arch") && declared_budget(&b).0 <= 20_000 {
+                    for mode in ["sync", "async"] {
+                        c.push(format!("chk_fault_nopanic open {mode} {} u_u", hex_bytes(&b)));
+                    }
+                    st.bump("hostile_archives_under_faults");
+                }
+            }
             let mut k = 0;
             for comp in ALL_COMP {
                 for n in [0usize, 3, 30] {
@@ -600,6 +635,47 @@ pub fn gen(prop: &str, rng: &mut Rng, quick: bool, st: &mut Stats) -> Option<Vec
                 c.push(format!("chk_sa_hist {}", ops.join(";")));
             }
             c.push(format!("chk_sa_hist {};s:X:Y;l;n", spill_ops(rng, 4300, Compression::None)));
+            // unusual directory structures (overlapping runs, mixed directories): whatever one family makes of them, the
+            // other must make the same
+            for (name, bytes, pts, _valid) in odd_archives(rng) {
+                let probes: Vec<String> = pts.iter().flat_map(|p| [format!("g:{p:x}"), format!("g:{:x}", p + 1)]).collect();
+                for rg in ["u_u", "i3_u", "u_e6"] {
+                    c.push(format!("chk_sa_hist o:X:{rg}:{};l;n;{}", hex_bytes(&bytes), probes.join(";")));
+                }
+                st.bump(&format!("odd_{}", name.replace(' ', "_")));
+            }
+            // gzip sections made of several members (content split over two members; a complete member followed by another)
+            for k in 0..4usize {
+                let mut s2 = Stats::default();
+                let f = gen_foreign(rng, &ForeignOpts { n: 6, depth: 0, icomp: 2, permute: false, unordered: false, empty_meta: false, merge_runs: true, unknown_counts: false, multi_frame: false }, &mut s2);
+                let h = &f.header;
+                let gz = |b: &[u8]| spec::codec_compress(2, b);
+                let (off, len, is_meta) = if k % 2 == 0 { (h.meta_off, h.meta_len, true) } else { (h.root_off, h.root_len, false) };
+                let plain = spec::codec_decompress(2, &f.bytes[off as usize..(off + len) as usize]).expect("gz");
+                let sec: Vec<u8> = if k < 2 {
+                    let cut = plain.len() / 2;
+                    let mut v = gz(&plain[..cut]);
+                    v.extend_from_slice(&gz(&plain[cut..]));
+                    v
+                } else {
+                    let mut v = gz(&plain);
+                    v.extend_from_slice(&gz(b"{\"x\":1}"));
+                    v
+                };
+                let mut h2 = h.clone();
+                let mut b = f.bytes.clone();
+                if is_meta {
+                    h2.meta_off = b.len() as u64;
+                    h2.meta_len = sec.len() as u64;
+                } else {
+                    h2.root_off = b.len() as u64;
+                    h2.root_len = sec.len() as u64;
+                }
+                b.extend_from_slice(&sec);
+                b[0..127].copy_from_slice(&spec::encode_header(&h2));
+                c.push(format!("chk_sa_hist o:X:u_u:{};q;l;n;g:0", hex_bytes(&b)));
+                st.bump("gzip_multi_member_sections");
+            }
             // range-filtered opens with bounds at 0 and at the top, on archives that contain tile 0
             for k in 0..(if quick { 6 } else { 40 }) {
                 let mut ops0 = vec!["a:0:0101".to_string(), "a:1:0202".into(), format!("a:{:x}:0303", BASE32 - 1)];
@@ -679,6 +755,11 @@ pub fn gen(prop: &str, rng: &mut Rng, quick: bool, st: &mut Stats) -> Option<Vec
                 }
             }
             c.push("chk_codec_unknown".into());
+            // inputs just beyond 2^27 bytes (window-size limits of the codecs' formats)
+            for comp in [Compression::ZStd, Compression::GZip] {
+                c.push(format!("chk_codec_big {} {:x}", comp_tok(comp), (1usize << 27) + 1));
+                st.bump("codec_inputs_over_128MiB");
+            }
             for k in 0..8u64 {
                 c.push(format!("chk_gzip_export {k:x} {:x} {:x} {:x}", k % 5, [0usize, 1, 300, 70_000][k as usize % 4], rng.next()));
             }
@@ -775,6 +856,10 @@ pub fn run_chk(toks: &[&str]) -> Option<String> {
             let data = unhex_bytes(data);
             guard_chk(|| chk_fault(kind, mode, &data, args))
         }
+        ["chk_fault_nopanic", kind, mode, data, args @ ..] => {
+            let data = unhex_bytes(data);
+            guard_chk(|| chk_fault_nopanic(kind, mode, &data, args))
+        }
         ["chk_fault_lookup", mode, data] => {
             let data = unhex_bytes(data);
             guard_chk(|| chk_fault_lookup(mode, &data))
@@ -786,6 +871,10 @@ pub fn run_chk(toks: &[&str]) -> Option<String> {
             guard_chk(|| chk_codec(c, kind, size, seed))
         }
         ["chk_codec_unknown"] => guard_chk(chk_codec_unknown),
+        ["chk_codec_big", c, size] => {
+            let (c, size) = (parse_comp(c), unhex_u64(size) as usize);
+            guard_chk(|| chk_codec_big(c, size))
+        }
         ["chk_gzip_export", k, kind, size, seed] => {
             let dir = std::env::var("PM_WORKDIR").unwrap_or_else(|_| "/verif/work/C14".into());
             let (k, kind, size, seed) = (unhex_u64(k), unhex_u64(kind), unhex_u64(size) as usize, unhex_u64(seed));
